@@ -88,6 +88,42 @@ def key(v) -> str:
     return repr(v)
 
 
+def _dedupe(sv):
+    seen, out = set(), []
+    for x in sv.items:
+        k = key(x)
+        if k not in seen:
+            seen.add(k)
+            out.append(x)
+    sv.items[:] = out
+    return sv
+
+
+def _set_items(v):
+    if isinstance(v, SetV):
+        return list(v.items)
+    if isinstance(v, (set, frozenset)):
+        return sorted(v, key=repr)
+    return None
+
+
+def _set_op(op, a, b):
+    """| & - ^ on abstract sets whose members are all concrete-keyed (no extend-markers unless plain union)"""
+    ia, ib = _set_items(a), _set_items(b)
+    if ia is None or ib is None:
+        return None
+    if isinstance(op, ast.BitOr):
+        return _dedupe(SetV(ia + ib))
+    if any(is_marker(x) or isinstance(x, (Sym, Lin)) for x in ia + ib):
+        return None
+    ka, kb = {key(x) for x in ia}, {key(x) for x in ib}
+    if isinstance(op, ast.Sub):
+        return SetV([x for x in ia if key(x) not in kb])
+    if isinstance(op, ast.BitAnd):
+        return SetV([x for x in ia if key(x) in kb])
+    return _dedupe(SetV([x for x in ia if key(x) not in kb] + [x for x in ib if key(x) not in ka]))
+
+
 def subst_sym(v, old, new):
     """replace the atom `old` by `new` inside an abstract value"""
     if isinstance(v, Sym):
@@ -398,8 +434,40 @@ class SymInterp(Interp):
             self.yield_stack[-1].extend(seq)
         return None
 
+    def _display(self, e, env, func):
+        """elements of a list/tuple/set display; *iterable elements are expanded (symbolic ones become markers)"""
+        out = []
+        for x in e.elts:
+            if isinstance(x, ast.Starred):
+                v = self.eval(x.value, env, func)
+                seq = self.concrete_iter(v)
+                if seq is None:
+                    out.append(Sym("extend", v))
+                else:
+                    out.extend(seq)
+            else:
+                out.append(self.eval(x, env, func))
+        return out
+
     def e_Set(self, e, env, func):
-        return SetV([self.eval(x, env, func) for x in e.elts])
+        return _dedupe(SetV(self._display(e, env, func)))
+
+    def e_List(self, e, env, func):
+        if any(isinstance(x, ast.Starred) for x in e.elts):
+            return self._display(e, env, func)
+        return super().e_List(e, env, func)
+
+    def e_Tuple(self, e, env, func):
+        if any(isinstance(x, ast.Starred) for x in e.elts) and isinstance(e.ctx, ast.Load):
+            d = self._display(e, env, func)
+            return d if any(is_marker(x) for x in d) else tuple(d)
+        return super().e_Tuple(e, env, func)
+
+    def _comp(self, e, env, func, kind):
+        r = super()._comp(e, env, func, kind)
+        if kind == "set" and isinstance(r, list):
+            return _dedupe(SetV(r))
+        return r
 
     def exec_stmt(self, s, env, func):
         if isinstance(s, ast.Return):
@@ -520,8 +588,12 @@ class SymInterp(Interp):
             return CatV(a.parts + [b])
         if isinstance(b, CatV) and isinstance(op, ast.Add):
             return CatV([a] + b.parts)
-        if isinstance(a, SetV) and isinstance(b, SetV) and isinstance(op, ast.BitOr):
-            return SetV(a.items + b.items)
+        if isinstance(op, (ast.BitOr, ast.BitAnd, ast.Sub, ast.BitXor)) and (isinstance(a, SetV) or isinstance(b, SetV)
+                                                                              or isinstance(a, (set, frozenset)) and isinstance(b, (set, frozenset))):
+            r = _set_op(op, a, b)
+            if r is not None:
+                return r
+            raise AnalysisError("set operation on partly symbolic sets outside the symflow fragment")
         if isinstance(a, list) and isinstance(op, ast.Add) and isinstance(b, Sym):
             return a + [Sym("extend", b)]
         if isinstance(op, ast.LShift) and isinstance(_int(b), int) and not isinstance(b, bool) and 0 <= _int(b) < 64 \
@@ -588,7 +660,24 @@ class SymInterp(Interp):
             if name == "union":
                 out = SetV(recv.items)
                 self._h_method(it, out, "update", args, kwargs, node, func)
-                return out
+                return _dedupe(out)
+            if name in ("difference", "intersection", "symmetric_difference") and len(args) == 1:
+                opn = {"difference": ast.Sub(), "intersection": ast.BitAnd(), "symmetric_difference": ast.BitXor()}[name]
+                other = args[0] if isinstance(args[0], (SetV, set, frozenset)) else SetV(self.concrete_iter(args[0]) or [Sym("extend", args[0])])
+                r = _set_op(opn, recv, other)
+                if r is not None:
+                    return r
+            if name in ("discard", "remove", "difference_update", "intersection_update") and len(args) == 1:
+                if name in ("discard", "remove"):
+                    other = SetV([args[0]])
+                    opn = ast.Sub()
+                else:
+                    other = args[0] if isinstance(args[0], (SetV, set, frozenset)) else SetV(self.concrete_iter(args[0]) or [Sym("extend", args[0])])
+                    opn = ast.Sub() if name == "difference_update" else ast.BitAnd()
+                r = _set_op(opn, recv, other)
+                if r is not None:
+                    recv.items[:] = r.items
+                    return None
             raise AnalysisError("%s: set method %s outside the symflow fragment" % (func.loc(node), name))
         if isinstance(recv, list):
             if name in ("append", "insert"):
